@@ -98,6 +98,12 @@ T["C18"] = dict(
     technique="TLA+ state machine + arithmetic specification checked by TLC with canary; spec->code replay of exports",
     ref="6. C18")
 
+T["C16"] = dict(
+    text="spec/RuleSyntax.tla holds the three documented machines (Rule.parse, Antecedent.load over the shunting-yard postfix, Consequent.load) and the documented grammar; spec/MC_RuleParse.tla runs them with TLC on every antecedent token sequence up to length 4 (thorough 5) over 12 symbols, every consequent sequence up to length 4 (5) and every single-error mutant of 4 valid rules, checking that the machines accept whatever the grammar derives and reject every listed error class. Every text is replayed through Rule.create, Rule.parse+load (is_loaded false after failure), a sample through RuleBlock.load_rules and FllImporter; outcome must be success (then export/activate/trigger work) or SyntaxError/ValueError/KeyError; internal errors, accepted must-reject texts, and texts accepted although the machines reject and the grammar does not derive them are violations. ~900-4000 line/token mutants of an FLL document: no internal error, accepted documents export and reach a fixed point after one cycle.",
+    note="The model predicts the code's verdict on every enumerated text at the pinned commit (0 divergences after the TypeError fix). FLL documents are mutated by the harness (the FLL grammar itself is specified under C14).",
+    technique="TLA+ parser machines + TLC exhaustive enumeration of short token sequences and mutants; spec->code replay with verdict prediction",
+    ref="6. C16")
+
 PLANNED = {}
 
 def main():
